@@ -19,6 +19,7 @@ import (
 	"strconv"
 	"strings"
 	"sync"
+	"sync/atomic"
 	"time"
 
 	"google.golang.org/protobuf/types/known/timestamppb"
@@ -89,6 +90,13 @@ type c02Run struct {
 	ckIDs    map[uint64]bool // checkpoint ids written to the DKV in this deployment
 	active   []bool // senders that have not sent SourceComplete in this deployment
 	gone     bool   // the operator stopped itself (no active source left)
+	// the consumer held at the batcher.flush hook inside the last barrier's handler
+	holdArmed atomic.Bool
+	heldCh    chan struct{}
+	resumeCh  chan struct{}
+	held      int   // sender whose completing barrier is being handled, -1 = not held
+	queue     []int // senders released past the gate while held
+	early     []string
 }
 
 func (r *c02Run) addLog(s string) {
@@ -334,7 +342,8 @@ func c02Impl(c lib.Case) []string {
 		return []string{"tmpdir " + err.Error()}
 	}
 	defer os.RemoveAll(dir)
-	r := &c02Run{k: k, keys: map[string]bool{}, dir: dir, quit: make(chan struct{}), keySp: partitioning.NewKeySpace(256, 1), status: make([]byte, k)}
+	r := &c02Run{k: k, keys: map[string]bool{}, dir: dir, quit: make(chan struct{}), keySp: partitioning.NewKeySpace(256, 1), status: make([]byte, k),
+		heldCh: make(chan struct{}, 1), resumeCh: make(chan struct{}), held: -1}
 	srIDs := make([]string, k)
 	for i := 0; i < k; i++ {
 		srIDs[i] = "s" + strconv.Itoa(i)
@@ -395,6 +404,21 @@ func c02Impl(c lib.Case) []string {
 		return []string{"consumer-not-started"}
 	}
 	verifhook.Set(func(label string, payload []any) {
+		if label == "batcher.flush" {
+			// only the operator's consumer flushes here; stop it when the schedule asked for a hold
+			if r.holdArmed.CompareAndSwap(true, false) {
+				select {
+				case r.heldCh <- struct{}{}:
+				case <-r.quit:
+					return
+				}
+				select {
+				case <-r.resumeCh:
+				case <-r.quit:
+				}
+			}
+			return
+		}
 		if !strings.HasPrefix(label, c02HookPfx) {
 			return
 		}
@@ -502,6 +526,57 @@ func c02Impl(c lib.Case) []string {
 			return "timeout"
 		}
 	}
+	// the observable outcome of sender i's HandleEvent call having returned with herr
+	finishGo := func(i int, herr error, snapsBefore int, withRel bool) string {
+		r.status[i] = '-'
+		parts := []string{"ok"}
+		log := r.takeLog()
+		if herr != nil && strings.Contains(herr.Error(), errC02JobUnreachable.Error()) && strings.HasPrefix(r.inflight[i], "bar ") {
+			parts = append(parts, "reg:"+strings.TrimPrefix(r.inflight[i], "bar ")) // the error is the failed ack, reported in the log
+		} else if herr != nil {
+			if m := c02Mismatch.FindStringSubmatch(herr.Error()); m != nil {
+				parts = append(parts, "reject:"+m[2]+":"+m[1])
+			} else {
+				parts = append(parts, "err:"+c02Err(herr))
+			}
+		} else if strings.HasPrefix(r.inflight[i], "bar ") {
+			parts = append(parts, "reg:"+strings.TrimPrefix(r.inflight[i], "bar "))
+		}
+		parts = append(parts, log...)
+		if r.inflight[i] == "done" && herr == nil {
+			parts = append(parts, "completed")
+			r.active[i] = false
+			any := false
+			for _, a := range r.active {
+				any = any || a
+			}
+			if !any && !syncConsumerFor(200*time.Millisecond) {
+				parts = append(parts, "stopped") // no active source left: the consumer is gone
+				r.gone = true
+			}
+		}
+		r.mu.Lock()
+		completed := r.snaps > snapsBefore
+		r.mu.Unlock()
+		if completed && withRel {
+			var rel []string
+			for j := 0; j < k; j++ {
+				if r.status[j] != 'k' {
+					continue
+				}
+				select {
+				case ev := <-r.hookCh[j]:
+					if ev == "gate" {
+						r.status[j] = 'p'
+						rel = append(rel, strconv.Itoa(j))
+					}
+				case <-time.After(c02Wait):
+				}
+			}
+			parts = append(parts, "rel:"+strings.Join(rel, "."))
+		}
+		return strings.Join(parts, " ")
+	}
 	out := make([]string, 0, len(c.Ops))
 	timedOut := false
 	for _, line := range c.Ops {
@@ -526,6 +601,95 @@ func c02Impl(c lib.Case) []string {
 		}
 		drain()
 		res := "bad-op"
+		if r.held >= 0 {
+			// the consumer is stopped inside handleCheckpointBarrier (holding o.mu): only senders already past
+			// alignment can move, everything else would block
+			switch {
+			case len(f) == 2 && f[0] == "go":
+				x, err := strconv.Atoi(f[1])
+				res = "noop"
+				if err == nil && x >= 0 && x < k && len(r.queue) == 0 && x != r.held && r.status[x] == 'p' &&
+					(r.inflight[x] == "ev" || r.inflight[x] == "wm") {
+					select {
+					case r.gate[x] <- struct{}{}:
+						r.queue = []int{x}
+						res = "queued"
+						select { // it must now wait on the busy consumer; give a wrong implementation time to show itself
+						case herr := <-r.done[x]:
+							// reported with the snapshot at `resume`, where the property-level effect shows
+							r.status[x] = '-'
+							r.queue = nil
+							r.early = append(r.early, fmt.Sprintf("returned-before-capture:%d:%s", x, c02Err(herr)))
+						case <-time.After(20 * time.Millisecond):
+						}
+					case <-time.After(c02Wait):
+						res = "timeout"
+					}
+				}
+			case len(f) == 1 && f[0] == "resume":
+				i := r.held
+				select {
+				case r.resumeCh <- struct{}{}:
+				case <-time.After(c02Wait):
+					res = "timeout"
+				}
+				if res == "timeout" {
+					break
+				}
+				var herr error
+				select {
+				case herr = <-r.done[i]:
+				case <-time.After(c02Wait):
+					res = "timeout"
+				}
+				if res == "timeout" {
+					break
+				}
+				for _, x := range r.queue {
+					select {
+					case <-r.done[x]:
+						r.status[x] = '-'
+					case <-time.After(c02Wait):
+						res = "timeout"
+					}
+				}
+				if res == "timeout" {
+					break
+				}
+				r.held, r.queue = -1, nil
+				res = finishGo(i, herr, 0, false)
+				if len(r.early) > 0 {
+					res += " " + strings.Join(r.early, " ")
+					r.early = nil
+				}
+			case len(f) == 6 && f[0] == "send" && f[2] == "ev":
+				r.mu.Lock()
+				r.keys[string(lib.UnHex(f[3]))] = true
+				r.mu.Unlock()
+				res = "consumer-held"
+				if i, err := strconv.Atoi(f[1]); err != nil || i < 0 || i >= k {
+					res = "bad-op"
+				}
+			default:
+				res = "consumer-held"
+			}
+			if strings.Contains(res, "timeout") {
+				timedOut = true
+			}
+			out = append(out, withSpurious(res))
+			continue
+		}
+		if len(f) == 1 && f[0] == "resume" {
+			out = append(out, "noop")
+			continue
+		}
+		hold := false
+		if len(f) == 2 && f[0] == "gohold" {
+			f[0] = "go"
+			if i, err := strconv.Atoi(f[1]); err == nil && i >= 0 && i < k && r.status[i] == 'p' && strings.HasPrefix(r.inflight[i], "bar ") {
+				hold = true
+			}
+		}
 		switch {
 		case len(f) >= 3 && f[0] == "send":
 			i, err := strconv.Atoi(f[1])
@@ -564,6 +728,7 @@ func c02Impl(c lib.Case) []string {
 			}
 			r.takeLog()
 			snapsBefore := r.snaps
+			r.holdArmed.Store(hold)
 			select {
 			case r.gate[i] <- struct{}{}:
 			case <-time.After(c02Wait):
@@ -575,43 +740,9 @@ func c02Impl(c lib.Case) []string {
 			var herr error
 			select {
 			case herr = <-r.done[i]:
-			case <-time.After(c02Wait):
-				res = "timeout"
-			}
-			if res == "timeout" {
-				break
-			}
-			r.status[i] = '-'
-			parts := []string{"ok"}
-			log := r.takeLog()
-			if herr != nil && strings.Contains(herr.Error(), errC02JobUnreachable.Error()) && strings.HasPrefix(r.inflight[i], "bar ") {
-				parts = append(parts, "reg:"+strings.TrimPrefix(r.inflight[i], "bar ")) // the error is the failed ack, reported in the log
-			} else if herr != nil {
-				if m := c02Mismatch.FindStringSubmatch(herr.Error()); m != nil {
-					parts = append(parts, "reject:"+m[2]+":"+m[1])
-				} else {
-					parts = append(parts, "err:"+c02Err(herr))
-				}
-			} else if strings.HasPrefix(r.inflight[i], "bar ") {
-				parts = append(parts, "reg:"+strings.TrimPrefix(r.inflight[i], "bar "))
-			}
-			parts = append(parts, log...)
-			if r.inflight[i] == "done" && herr == nil {
-				parts = append(parts, "completed")
-				r.active[i] = false
-				any := false
-				for _, a := range r.active {
-					any = any || a
-				}
-				if !any && !syncConsumerFor(200*time.Millisecond) {
-					parts = append(parts, "stopped") // no active source left: the consumer is gone
-					r.gone = true
-				}
-			}
-			r.mu.Lock()
-			completed := r.snaps > snapsBefore
-			r.mu.Unlock()
-			if completed {
+				r.holdArmed.Store(false) // the barrier did not complete the checkpoint: nothing was flushed
+			case <-r.heldCh:
+				// the consumer is inside the last barrier's handler, the parked senders have been woken
 				var rel []string
 				for j := 0; j < k; j++ {
 					if r.status[j] != 'k' {
@@ -626,9 +757,16 @@ func c02Impl(c lib.Case) []string {
 					case <-time.After(c02Wait):
 					}
 				}
-				parts = append(parts, "rel:"+strings.Join(rel, "."))
+				r.held = i
+				res = "held rel:" + strings.Join(rel, ".")
+			case <-time.After(c02Wait):
+				res = "timeout"
 			}
-			res = strings.Join(parts, " ")
+			if res == "timeout" || r.held >= 0 {
+				break
+			}
+			res = finishGo(i, herr, snapsBefore, true)
+			break
 		case len(f) == 1 && (f[0] == "tick" || f[0] == "stale"):
 			timer.mu.Lock()
 			cb := timer.last
@@ -811,6 +949,27 @@ type c02Sim struct {
 	gone    bool
 }
 
+// completes reports whether sender i stands at the gate with the barrier that completes the checkpoint
+func (s *c02Sim) completes(i int) bool {
+	it := strings.Fields(s.item[i])
+	if s.status[i] != 'p' || len(it) != 2 || it[0] != "bar" {
+		return false
+	}
+	id, _ := strconv.Atoi(it[1])
+	if !s.inCk {
+		return s.k == 1
+	}
+	if id != s.ckID {
+		return false
+	}
+	for j := range s.missing {
+		if j != i {
+			return false
+		}
+	}
+	return true
+}
+
 func (s *c02Sim) redeploy() {
 	s.inCk, s.stale = false, false
 	for j := 0; j < s.k; j++ {
@@ -978,6 +1137,34 @@ func c02Schedule(r *lib.Rng, k int, scripts [][]string) []string {
 			ops = append(ops, fmt.Sprintf("send %d %s", ch.i, scripts[ch.i][sim.pos[ch.i]]))
 			sim.send(ch.i)
 		case "go":
+			if sim.completes(ch.i) && r.Chance(1, 3) {
+				// stop the consumer between waking the parked senders and the flush+capture; let one woken (or
+				// waiting) sender run on; resume
+				ops = append(ops, fmt.Sprintf("gohold %d", ch.i))
+				var cand []int
+				for j := 0; j < k; j++ {
+					if j != ch.i && sim.status[j] != '-' && (strings.HasPrefix(sim.item[j], "ev ") || strings.HasPrefix(sim.item[j], "wm ")) {
+						cand = append(cand, j)
+					}
+				}
+				if r.Chance(1, 3) {
+					ops = append(ops, lib.Pick(r, []string{"state", "tick", "send 0 ev 61 252 0", "redeploy"})) // all refused
+				}
+				x := -1
+				if len(cand) > 0 && r.Chance(4, 5) {
+					x = lib.Pick(r, cand)
+					ops = append(ops, fmt.Sprintf("go %d", x))
+					if r.Chance(1, 4) {
+						ops = append(ops, fmt.Sprintf("go %d", lib.Pick(r, cand))) // a second one is not let through
+					}
+				}
+				ops = append(ops, "resume")
+				sim.run(ch.i)
+				if x >= 0 {
+					sim.run(x)
+				}
+				break
+			}
 			ops = append(ops, fmt.Sprintf("go %d", ch.i))
 			sim.run(ch.i)
 		case "tick":
@@ -1126,6 +1313,13 @@ func propC02() *lib.Prop {
 				c02Case(2, 3, "send 0 ev 61 1 0", "go 0", "send 1 ev 62 2 0", "redeploy", "go 1", "send 0 bar 1", "go 0", "send 1 bar 1", "go 1", "state"),
 				// SourceComplete flushes; the last one stops the operator
 				c02Case(2, 3, "send 0 ev 61 1 0", "go 0", "send 0 done", "go 0", "send 1 bar 1", "go 1", "state", "send 1 done", "go 1", "send 0 ev 61 2 0", "go 0", "state"),
+				// the window between waking the parked senders and the capture: the woken sender's post-barrier event
+				// must wait for the consumer and stay out of checkpoint 1 (seeded change C02-4)
+				c02Case(2, 3, "send 0 ev 61 1 0", "go 0", "send 0 bar 1", "go 0", "send 0 ev 61 9 0", "send 1 bar 1", "gohold 1", "state", "go 0", "go 0",
+					"resume", "state", "tick", "send 0 bar 2", "go 0", "send 1 bar 2", "gohold 1", "resume", "state"),
+				// same with a sender that was already at the gate and a watermark that would fire a timer
+				c02Case(2, 2, "send 0 ev 61 1 5", "go 0", "send 0 wm 9", "go 0", "send 0 bar 1", "go 0", "send 1 wm 9", "send 1 bar 1", "go 1", "send 1 bar 1",
+					"gohold 1", "go 1", "resume", "state"),
 				// timers: a post-barrier watermark must not fire timers into checkpoint 1
 				c02Case(2, 3, "send 0 ev 61 1 5", "go 0", "tick", "send 0 wm 9", "go 0", "send 1 bar 1", "go 1", "send 1 wm 9", "state", "send 0 bar 1", "go 0", "go 1", "tick", "state"),
 			}
